@@ -349,14 +349,66 @@ def check_sequences(run):
         bad1.parameter_names = bad1.parameter_names[:-1]
         start = dict(model.models_available)
         ops, outs = [], []
-        for _ in range(run.rng.randint(2, 8)):
-            r = run.rng.random()
-            if r < 0.5:
-                m = run.rng.choice(mods + [bad, bad0, bad1])
+        scripts = [
+            [("reg", 0), ("edit", 0, "shorten-units"), ("reg", 0),
+             ("edit", 0, "rename"), ("reg", 0), ("edit", 0, "duplicate-names"),
+             ("reg", 0), ("edit", 0, "restore"), ("reg", 0)],
+            [("reg", 1), ("edit", 1, "rename"), ("reg", 1), ("dereg", 1),
+             ("edit", 1, "shorten-units"), ("reg", 1), ("reg", 1)],
+        ]
+        if h < len(scripts):
+            plan = scripts[h]
+        else:
+            plan = []
+            for _ in range(run.rng.randint(2, 8)):
+                r = run.rng.random()
+                if r < 0.2:
+                    plan.append(("edit", run.rng.randrange(3), run.rng.choice(
+                        ["shorten-units", "restore", "rename",
+                         "duplicate-names"])))
+                elif r < 0.6:
+                    plan.append(("reg", run.rng.randrange(6)))
+                else:
+                    plan.append(("dereg", run.rng.randrange(3)))
+        for item in plan:
+            r = {"edit": 0.1, "reg": 0.5, "dereg": 0.9}[item[0]]
+            if r < 0.2:
+                # the caller edits a module object in place (it may be
+                # registered already): what counts at the next registration is
+                # its content then
+                m = mods[item[1]]
+                how = item[2]
+                ref = base_module(m.model_key)
+                if how == "shorten-units":
+                    m.parameter_units = list(ref.parameter_units)[:-1]
+                elif how == "duplicate-names":
+                    m.parameter_names = [ref.parameter_names[0]] * len(
+                        ref.parameter_names)
+                elif how == "rename":
+                    m.parameter_names = [n + " (edited)"
+                                         for n in ref.parameter_names]
+                    m.parameter_units = list(ref.parameter_units)
+                else:
+                    m.parameter_names = list(ref.parameter_names)
+                    m.parameter_units = list(ref.parameter_units)
+                continue
+            if r < 0.6:
+                m = (mods + [bad, bad0, bad1])[item[1]]
                 before = dict(model.models_available)
                 try:
                     model.register_model(m)
                     outs.append("None")
+                    md = model.models_available.get(m.model_key)
+                    if md is None or list(md.parameter_names) != list(
+                            m.parameter_names) or list(
+                            md.parameter_units) != list(m.parameter_units):
+                        run.failing(
+                            SITE_R, f"registered-model-is-stale:{m.model_key}",
+                            f"register_model({m.model_key!r}) succeeded but "
+                            "the registry's model does not carry the names / "
+                            "units the module has now",
+                            payload={"kind": "sequence"},
+                            theorem="C18_register_available")
                 except BaseException as e:
                     outs.append(f"(Some {m1.exn_coq(type(e).__name__)})")
                     after = dict(model.models_available)
@@ -374,9 +426,10 @@ def check_sequences(run):
                             theorem="C18_failure_preserves")
                 ops.append(f"Register {coq_mod(m)}")
             else:
-                m = run.rng.choice(mods)
+                m = mods[item[1]]
                 try:
-                    model.deregister_model(model.NaniteFitModel(m))
+                    model.deregister_model(model.NaniteFitModel(
+                        base_module(m.model_key)))
                     outs.append("None")
                 except BaseException as e:
                     outs.append(f"(Some {m1.exn_coq(type(e).__name__)})")
